@@ -156,7 +156,17 @@ func init() {
 				}
 				leases = append(leases, *l)
 			}
-			ls, err := lease_set.NewLeaseSet(*d, mkPub(0, enc), mkSpk(st, id.pub), leases, depPrivateKey(id))
+			// the signing_key field of a legacy LeaseSet is a separate (revocation) key: either the destination's own key
+			// again or an independent key of the same type
+			fieldKey := id.pub
+			if m.Bool("otherrevkey") {
+				rk, rerr := genKey(st, rng)
+				if rerr != nil {
+					return Res{"setup": false, "err": errStr(rerr)}
+				}
+				fieldKey = rk.pub
+			}
+			ls, err := lease_set.NewLeaseSet(*d, mkPub(0, enc), mkSpk(st, fieldKey), leases, depPrivateKey(id))
 			res["ok"], res["err"] = err == nil && ls != nil, errStr(err)
 			if err == nil && ls != nil {
 				verr := ls.Validate()
